@@ -7,7 +7,7 @@ import subprocess
 
 VERIF = os.path.dirname(os.path.dirname(os.path.abspath(__file__)))
 
-REGISTERED = ["C01", "C02", "C03", "C04", "C05", "C06", "C07", "C08", "C09", "C10", "C11", "C12", "C13", "C14", "C15", "C16", "C18", "C19", "C20"]
+REGISTERED = ["C01", "C02", "C03", "C04", "C05", "C06", "C07", "C08", "C09", "C10", "C11", "C12", "C13", "C14", "C15", "C16", "C17", "C18", "C19", "C20"]
 
 NOT_YET = "monitor designed (DESIGN.md section 2) but not yet built/validated in /verif; not claimed until it is"
 
@@ -57,7 +57,8 @@ P = {
                 text="Random fields on 1-3-D grids with all periodicity patterns and anisotropic widths, six arrival-order classes, three resolutions per analytic surface.",
                 note="max-norm order at corners where >=2 non-periodic directions meet is h^2 log(1/h): counted separately, RMS order must still be 2"),
     "C17": dict(cat="exploration", tech="lock-step reference model of the documented BAOA integrator with a controlled Gaussian source + model-free invariants on the observed coordinate/velocity/energies",
-                text="Lock-step integrator model + model-free invariants.", note=""),
+                text="Extended-Lagrangian variables (reflecting walls / periodic / free, friction 0 and > 0, timeStepFactor 1-3, harmonic / walls / metadynamics / ABF biases, bypassing biases) driven over imposed excursions: the documented integrator is run in lock-step from the imposed actual value, the observed bias force and the logged Gaussians and compared every step; model-free laws on the same logs: energy drift bounded and O(dt^2) when dt is halved (friction 0), never outside a reflecting wall, repeated step / new run / restart twins, one-step identities tying Ep, Ek, total and applied force to the reported state, force routing (atoms feel only the spring and bypassing biases), equipartition over 2e5 updates (thorough).",
+                note="reported velocity is the half-step one (leapfrog form of the documented scheme); reflection velocity rule taken from the code (manual only says 'opposite momentum'), both sign conventions accepted and counted; metadynamics/ABF forces on the extended coordinate are taken as observed (their closure is C04/C05)"),
     "C18": dict(cat="exploration", tech="in-process property harness over colvarvalue / colvar metric functions (dist2, gradients, wrap, interpolate, constraints) with random and adversarial pairs and a finite-difference tangent-space gradient oracle; ASan sample",
                 text="Every value type and 11 configured variables (periodic, unit vector, quaternion, minimum image...) x 16 pair classes; non-negativity, symmetry, identity, period and sign invariance, gradient, wrap range, interpolation end points and manifold.",
                 note="only the tangent projection of the gradient is constrained; near the cut locus the gradient test is inconclusive"),
